@@ -428,6 +428,24 @@ fn case(m: &mut Mon, r: &mut Rng, _idx: u64) {
                         ensure!(a4.abs_cmp(&b0) == wabs && b0.abs_cmp(&a4) == wabs.reverse() && a0.abs_cmp(&b4) == wabs, "abs_cmp", "abs_cmp != {:?}", wabs);
                     }
                     ensure!((a0 == b0) == (want == Ordering::Equal) && (a0 == b1) == (want == Ordering::Equal), "eq", "== inconsistent with exact values");
+                    // values produced by arithmetic on operands of different precisions, in every ownership form and
+                    // operand order: the forms are the same value, so they must be == and order alike against any probe
+                    let lo = F0::from_parts(IBig::from(if neg { -1 } else { 1 } * (1 + (k as i64 % 7))), (e + ndig / 2) as isize);
+                    let sums: [F0; 8] = [
+                        a3.clone() + lo.clone(), &a3 + lo.clone(), a3.clone() + &lo, &a3 + &lo,
+                        lo.clone() + a3.clone(), &lo + a3.clone(), lo.clone() + &a3, &lo + &a3,
+                    ];
+                    let diffs: [F0; 4] = [a3.clone() - lo.clone(), &a3 - lo.clone(), a3.clone() - &lo, &a3 - &lo];
+                    for group in [&sums[..], &diffs[..]] {
+                        for (gi, v) in group.iter().enumerate() {
+                            fnorm(v, "sum of operands with different precisions")?;
+                            ensure!(*v == group[0] && v.cmp(&group[0]) == Ordering::Equal, "eq", "call form #{} of a mixed-precision sum differs from form #0 ({:?} vs {:?})", gi, v.repr(), group[0].repr());
+                            for probe in [&b0, &b4, &a0, &lo] {
+                                ensure!(v.cmp(probe) == group[0].cmp(probe) && probe.cmp(v) == probe.cmp(&group[0]), "cmp",
+                                    "equal sums order differently against {:?}: form #{} (precision {}) gives {:?}, form #0 (precision {}) gives {:?}", probe.repr(), gi, v.precision(), v.cmp(probe), group[0].precision(), group[0].cmp(probe));
+                            }
+                        }
+                    }
                     // infinities
                     let (pinf, ninf) = (F0::INFINITY, F0::NEG_INFINITY);
                     ensure!(a0 < pinf && a0 > ninf && ninf < pinf && pinf == F0::INFINITY && ninf == F0::NEG_INFINITY && pinf != ninf && a0 != pinf && a0 != ninf, "inf", "infinity ordering wrong against {}", a0);
